@@ -61,7 +61,7 @@ class Classifier:
                 t = prog.T(f, e.get("t")) if isinstance(e.get("t"), int) else ""
                 p = next((p for p in f["params"] if p.get("vid") == vid), None)
                 pt = prog.T(f, p["t"]) if p else t
-                if pt.rstrip().endswith("&") or pt.rstrip().endswith("*") or "reference_wrapper<" in pt:
+                if pt.rstrip().endswith("&") or pt.rstrip().endswith("*") or "reference_wrapper<" in pt or "(&)" in pt or "(&&)" in pt or "(*)" in pt:
                     return "caller", "parameter %s (%s)" % (e.get("name"), pt[:60])
                 return "automatic", "by-value parameter %s of %s" % (e.get("name"), strip_targs(f["q"]).split("::")[-1])
             if rk in ("local", "binding"):
@@ -157,4 +157,18 @@ def classify_site(prog, f, referent):
                 if worst:
                     c2, d2 = worst[0]
                     return ("loop-element:" + c2 if rf is not None else c2), (d + "; the closure is called with " + d2)
+    if c == "caller" and f.get("kind") != "lambda" and (f["q"].startswith("chaiscript::eval::") or f["q"].startswith("chaiscript::optimizer::")):
+        # a helper of the evaluator that boxes its reference parameter: look at what its callers pass (one level)
+        base = strip_casts(referent)
+        while base.get("k") in ("unop",) and base.get("op") in ("*", "&"):
+            base = strip_casts(base["e"])
+        if base.get("k") == "ref" and base.get("rk") == "param":
+            for g in prog.fns:
+                if g["tk"] == "pattern" or g["unit"] != f["unit"] or not g["q"].startswith("chaiscript::"):
+                    continue
+                for n in walk(g["body"]):
+                    if n.get("k") == "call" and n.get("fn") == f["id"] and base.get("idx") is not None and base["idx"] < len(n.get("args", [])):
+                        c2, d2 = Classifier(prog, g).classify(n["args"][base["idx"]])
+                        if c2 in ("automatic", "catch", "handle-owned"):
+                            return c2, d + "; %s passes %s" % (strip_targs(g["q"]).split("::")[-1], d2)
     return c, d
